@@ -3,7 +3,7 @@
    andb/orb are inlined; nat, positive, N, Z, byte, comparison stay Coq datatypes. *)
 From Coq Require Import Extraction ExtrOcamlBasic.
 From Coq Require Import List NArith ZArith. From Coq Require Import Strings.Byte.
-From PrismV Require Import IO.IO IO.Parse Icc.Icc Meta.Meta Num.Quant Num.Reps Img.Image Img.Convert Num.F64 Mat.Mat3G Mat.Mat3F Mat.LabF.
+From PrismV Require Import IO.IO IO.Parse Icc.Icc Meta.Meta Num.Quant Num.Reps Num.Premul Img.Image Img.Convert Num.F64 Mat.Mat3G Mat.Mat3F Mat.LabF.
 Extraction Language OCaml.
 Extraction "model.ml"
   Byte.to_N Byte.of_N
@@ -13,5 +13,6 @@ Extraction "model.ml"
   F64.f64_of_bits F64.bits64 F64.f32_of_bits Mat3F.inverseF Mat3F.mulMF Mat3F.mulVF Mat3F.transposeF Mat3F.to_xyzF Mat3F.from_xyzF
   LabF.to_lab LabF.from_lab Mat3F.mat32_apply Mat3F.adaptF Mat3F.adapt_xyyF Mat3F.applyF Mat3F.xyz32 Mat3F.bradford_inverse
   Image.transform Image.set_bytes Convert.ycbcr_to_rgb8 Convert.ycbcr_rgba16 Convert.nrgba_premul
+  Premul.lin_channel_bits
   Quant.c32 Quant.quant8 Quant.quant9 Quant.quant16
   Meta.load_with Meta.auto_load Meta.png_prog Meta.jpeg_prog Meta.webp_prog Meta.pure_of Meta.consumed_by Meta.first_success.
